@@ -8,8 +8,8 @@ from gen_qn import charge_vectors, block_matrix, FLOAT_STYLES
 from oracle_dense import mat_mask_violation, mps_mask_violation
 
 ID = 'C12'
-RULE = ('cases = block-sparse matrix (row/column charges up to 12x12 as in C11; entries random or built block-wise as '
-        'U diag(s) V with a designed spectrum: decaying, degenerate inside and across blocks, rank deficient) x tolerance '
+RULE = ('cases = block-sparse matrix (row/column charges up to 12x12 as in C11, plus strongly elongated sectors 2-3 x 24-30 in either orientation; entries random or built block-wise as '
+        'U diag(s) V with a designed spectrum: decaying, nine decades per step, degenerate inside and across blocks, exact ties, rank deficient) x tolerance '
         '(0, uniform in [0,1), or exactly a cumulative weight of the designed spectrum); second part: two-site MPS tensors '
         'with charges x 3 singular value distributions x tolerance. Non-trivial: >= 1 singular value discarded, >= 1 kept and '
         '>= 2 shared charge blocks (matrix part) / a truncated split (tensor part).')
